@@ -132,6 +132,42 @@ func main(a [4]uint32, b uint32) ([4]uint32, uint32) {
 `},
 }
 
+// libSeed rotates the catalogue of class lib (set from -seed).
+var libSeed uint64
+
+// libCorpus runs last in the lib mode: the hand-minimised witnesses of the
+// output-slot defect (libattr.go) -- one per failure mode.
+var libCorpus = []*prog{
+	// two replaced slots hold the same wire: Compile panics
+	{Class: "lib", GIn: []string{"5"}, EIn: []string{"9"}, Src: `package main
+
+import (
+	"encoding/binary"
+)
+
+func main(a, b uint8) uint8 {
+	return binary.HammingDistance(a, b)
+}
+`},
+	// one replaced slot: bit 3 of the result is not driven and keeps the
+	// label of the dead value whose wire id it got (whole circuit: 1, true)
+	{Class: "lib", GIn: []string{"8"}, EIn: []string{"0"}, Src: `package main
+
+import (
+	"encoding/binary"
+)
+
+func main(a, b uint4) (uint4, bool) {
+	x := a | b
+	y := a ^ b
+	z := a + b
+	c := x > 7 && y > 7 && z > 7
+	h := binary.HammingDistance(a, b)
+	return h, c
+}
+`},
+}
+
 func safeGen(r *hxlib.Rng, class string, idx int) (p *prog) {
 	defer func() {
 		if e := recover(); e != nil {
@@ -145,6 +181,9 @@ func safeGen(r *hxlib.Rng, class string, idx int) (p *prog) {
 	}
 	if class == "upd" {
 		return updProgram(r, idx)
+	}
+	if class == "lib" {
+		return libProgram(r, idx, libSeed)
 	}
 	return genProgram(r, class, idx)
 }
@@ -198,6 +237,9 @@ func main(a, b uint8) uint8 {
 	return b + a
 }
 `
+
+// class lib bookkeeping: functions with at least one compared program
+var libSeen, libDone = map[string]bool{}, map[string]bool{}
 
 type outcome struct {
 	Status string
@@ -268,6 +310,22 @@ func runOracle(args []string) int {
 	for _, x := range strings.Split(cf.Extra, ",") {
 		updOnly = updOnly || x == "upd"
 	}
+	libOnly := false
+	for _, x := range strings.Split(cf.Extra, ",") {
+		libOnly = libOnly || x == "lib"
+	}
+	libSeed = cf.Seed
+	if libOnly {
+		// every catalogue entry at least twice (wide round, narrow round), then the corpus
+		if min := 2*len(catalogue().funcs) + len(libCorpus); cf.N < min && cf.Only < 0 {
+			cf.N = min
+		}
+		total = cf.N
+		rng = hxlib.NewRng(hxlib.NewRng(cf.Seed^0x6c6962).U64() ^ cf.Seed<<32)
+		cat := catalogue()
+		o.CountN("lib_catalogue_functions", len(cat.funcs))
+		o.CountN("lib_catalogue_signatures_outside_grammar", cat.skipped)
+	}
 	if updOnly {
 		// NewRng(seed) and NewRng(seed+1) are the same splitmix64 stream shifted
 		// by one draw; start this mode's stream from a mixed state so that
@@ -292,6 +350,17 @@ func runOracle(args []string) int {
 			}
 			if p == nil {
 				o.Count("generator_panic")
+				continue
+			}
+		} else if libOnly {
+			if k := i - (cf.N - len(libCorpus)); k >= 0 {
+				p = libCorpus[k]
+				p.Feat = map[string]bool{"lib_corpus": true}
+			} else {
+				p = safeGen(r, "lib", i)
+			}
+			if p == nil {
+				o.Count("lib_no_argument_shape")
 				continue
 			}
 		} else if i < len(corpus) {
@@ -324,9 +393,32 @@ func oneProgram(o *hxlib.Out, cf *hxlib.CommonFlags, i int, r *hxlib.Rng, p *pro
 	if p.HasTag {
 		o.Count("upd_tagged")
 	}
+	if p.Lib != "" {
+		base0 := p.Lib
+		t0 := time.Now()
+		if os.Getenv("C05_DEBUG") != "" {
+			fmt.Fprintf(os.Stderr, "case %d lib %s start\n", i, p.Lib)
+		}
+		defer func() {
+			if os.Getenv("C05_DEBUG") != "" {
+				fmt.Fprintf(os.Stderr, "case %d lib %s %.2fs\n", i, base0, time.Since(t0).Seconds())
+			}
+			if libDone[base0] {
+				o.Count("lib_programs_compared")
+				if !libSeen[base0] {
+					libSeen[base0] = true
+					o.Count("lib_functions_compared")
+				}
+				libDone[base0] = false
+			}
+		}()
+	}
 	base := map[string]any{"case": i, "seed": cf.Seed, "class": p.Class, "src": p.Src, "g_inputs": p.GIn, "e_inputs": p.EIn,
 		"rerun":      strings.TrimSpace(fmt.Sprintf("c05 oracle -seed %d -n %d -only %d %s", cf.Seed, cf.N, i, extraFlag(cf.Extra))),
 		"replay_cmd": "cd /verif/harness && GOFLAGS=-mod=mod GOPROXY=off MPCLDIR=$VERIF_REPO go run -tags verif ./cmd/c05 replay <this replay file>   # runs only this program: streaming pair vs whole circuit"}
+	if p.Lib != "" {
+		base["library_function"] = p.Lib
+	}
 	mk := func(extra map[string]any) map[string]any {
 		m := map[string]any{}
 		for k, v := range base {
@@ -345,10 +437,27 @@ func oneProgram(o *hxlib.Out, cf *hxlib.CommonFlags, i int, r *hxlib.Rng, p *pro
 	sp, err := hxlib.CompileSSA(p.Src, sizes)
 	if err != nil {
 		o.Count("compile_error")
+		if p.Lib != "" {
+			o.Count("lib_compile_error")
+		}
 		if os.Getenv("C05_DEBUG") != "" {
 			fmt.Fprintf(os.Stderr, "case %d compile error: %v\n%s\n", i, err, p.Src)
 		}
 		return
+	}
+	if p.Lib != "" {
+		cost := ssaCost(sp)
+		if os.Getenv("C05_DEBUG") != "" {
+			fmt.Fprintf(os.Stderr, "case %d lib %s cost %d steps %d\n", i, p.Lib, cost, len(sp.Steps))
+		}
+		budget := 250000
+		if cf.Tier == "thorough" {
+			budget = 1000000
+		}
+		if cost > budget {
+			o.Count("lib_over_cost_budget")
+			return
+		}
 	}
 	o.Count("compiled")
 	si := analyse(sp)
@@ -459,6 +568,12 @@ func oneProgram(o *hxlib.Out, cf *hxlib.CommonFlags, i int, r *hxlib.Rng, p *pro
 	if g.Status != "ok" {
 		if refOK {
 			info["detail"] = errText(res)
+			if res.GPanic != nil {
+				info["panic"] = clip(fmt.Sprint(res.GPanic), 200)
+			}
+			if si.OpCount["builtin"] > 0 {
+				attributeOutputSlots(p.Src, p.GIn, p.EIn, sizes, r, wo, info)
+			}
 			o.Fail("c05-stream-"+g.Status, mk(info))
 		} else {
 			o.Count("both_unavailable")
@@ -474,6 +589,9 @@ func oneProgram(o *hxlib.Out, cf *hxlib.CommonFlags, i int, r *hxlib.Rng, p *pro
 		return
 	}
 	o.Count("compared")
+	if p.Lib != "" {
+		libDone[p.Lib] = true
+	}
 	if si.NumGC > 0 && cause == "" {
 		o.Count("compared_gc_active_no_early_free")
 	}
@@ -508,6 +626,17 @@ func oneProgram(o *hxlib.Out, cf *hxlib.CommonFlags, i int, r *hxlib.Rng, p *pro
 				}
 				inf["g_inputs"], inf["e_inputs"] = alt[0], alt[1]
 				inf["found_by"] = "input vector of another combination of the program's conditions"
+				if p.Lib != "" {
+					inf["found_by"] = "second input vector of the program"
+				}
+				if cause == "" && si.OpCount["builtin"] > 0 {
+					if s2, err := hxlib.StreamInputSizes(alt[0], alt[1]); err == nil {
+						wo2 := outcome{Status: "ok", Vals: hxlib.BigsString(w2.Res), Types: hxlib.IODesc(w2.Out)}
+						if attributeOutputSlots(p.Src, alt[0], alt[1], s2, r, wo2, inf) {
+							inf["explained_by_early_free"] = "false"
+						}
+					}
+				}
 				o.Count("mismatch_" + cause + "_alt_vector")
 				o.Fail("c05-stream-mismatch", mk(inf))
 				return
@@ -583,6 +712,13 @@ func oneProgram(o *hxlib.Out, cf *hxlib.CommonFlags, i int, r *hxlib.Rng, p *pro
 				info["cause"] = cause
 				info["explained_by_reorder"] = "true"
 			}
+		}
+	}
+	// Fourth attribution: a circuit builder replaced slots of the result slice
+	// that Program.Stream uses as the instruction circuit's outputs (libattr.go).
+	if explained == "false" && cause == "" && si.OpCount["builtin"] > 0 {
+		if attributeOutputSlots(p.Src, p.GIn, p.EIn, sizes, r, wo, info) {
+			cause = "builder-replaced-output-slot"
 		}
 	}
 	if g.Types != wo.Types {
